@@ -374,8 +374,10 @@ static void check_replace(Ctx &c, const std::string &subj, const std::string &fr
 }
 
 // ---------------------------------------------------------------- tokenize
-static const char *const DELIMS[] = {",", ", ", "", nullptr /* default argument */, ",a", "\t ,"};
-enum { NDELIMS = 6 };
+static const char *const DELIMS[] = {",", ", ", "", nullptr /* default argument */, ",a", "\t ,",
+                                     // delimiters >= 0x80: tokens are byte runs, whether or not they are whole characters
+                                     "\xA9", "\xC3", ",\x80"};
+enum { NDELIMS = 6, NDELIMS_ALL = 9 };
 
 static void check_tokenize(Ctx &c, const std::string &subj, int di)
 {
@@ -511,6 +513,22 @@ static void build(vf::Plan &plan, const vf::Opts &o)
                                   int di = (int)vf::take(idx, NDELIMS);
                                   return strf("s=%s delims=%s", vf::vis(seq_string(idx, KA, KL)).c_str(),
                                               DELIMS[di] ? vf::vis(DELIMS[di], strlen(DELIMS[di])).c_str() : "<default>");
+                              });
+        st.case_timeout_s = 3;
+    }
+
+    {
+        const std::string HA("a,\xC3\xA9\xA8\x80", 6);
+        const unsigned HL = reduced ? 3 : T ? 6 : 5;
+        auto &st = plan.stage(strf("tokenize:{a,',',C3,A9,A8,80}^<=%u x 9 delimiter sets (three with bytes >= 0x80; tokens need not be whole characters)", HL),
+                              vf::seq_count(HA.size(), HL) * NDELIMS_ALL,
+                              [HA, HL](uint64_t idx, Ctx &c) {
+                                  int di = (int)vf::take(idx, NDELIMS_ALL);
+                                  check_tokenize(c, seq_string(idx, HA, HL), di);
+                              },
+                              [HA, HL](uint64_t idx) {
+                                  int di = (int)vf::take(idx, NDELIMS_ALL);
+                                  return strf("s=%s delims=%s", vf::vis(seq_string(idx, HA, HL)).c_str(), DELIMS[di] ? vf::vis(DELIMS[di], strlen(DELIMS[di])).c_str() : "<default>");
                               });
         st.case_timeout_s = 3;
     }
